@@ -153,8 +153,12 @@ def run(init: dict, evs: List[dict], reads: List[dict], expected: bool):
         rep = {}
         for who, X in (("dense", D), ("sparse", S)):
             try:
+                held = hold_reads(X)
                 st = do_write(X, who == "sparse", ev, k)
                 rep[who] = {"st": st, "obj": proj_state(X)} if st == "ok" else {"st": st}
+                if st == "ok" and held_changed(held):
+                    # a value read earlier is a value: a later write to the array may not change it
+                    rep[who] = {"st": "earlier-read-result-changed-by-this-write"}
             except bind.Inexact as e:
                 rep[who] = {"st": "inexact", "msg": str(e)[:120]}
             except Exception as e:
@@ -199,6 +203,33 @@ def run(init: dict, evs: List[dict], reads: List[dict], expected: bool):
                                  "trace_index": len(traces), "event": len(cur["ev"])})
     traces.append(cur)
     return traces, divs, nev
+
+
+def hold_reads(X):
+    """region reads taken before a write: one is kept untouched (it must not change when X is written), one is written
+    into (X must not change: that would show up as wrong entries after the write)"""
+    import c05
+    try:
+        n = X.ndims
+        if n == 0 or 0 in tuple(X.shape) or len(X.shape) == 0:
+            return []
+        keys = [tuple([slice(None)] * n), tuple([slice(None)] * (n - 1) + [int(X.shape[-1]) - 1])]
+        held = []
+        for key in keys:
+            r = X[key]
+            if hasattr(r, "shape") and not np.isscalar(r):
+                held.append((r, c05.snapshot(r)))
+            p = X[key]
+            if hasattr(p, "ndims") and p.ndims >= 1 and 0 not in tuple(p.shape):
+                p[tuple([0] * p.ndims)] = 77.0
+        return held
+    except Exception:
+        return []
+
+
+def held_changed(held) -> bool:
+    import c05
+    return any(c05.snapshot(r) != snap for r, snap in held)
 
 
 def kind_of(ev: dict) -> str:
@@ -279,7 +310,7 @@ def plan(tier: str):
     jobs = []
     if tier == "quick":
         for s in starts:
-            jobs.append((s, 1, "full", None))
+            jobs.append((s, 1, "full" if s in ("empty", "lab22", "lab3", "lab222") else "medium", None))
         for s in ["empty", "zeros22", "one11", "lab22", "lab3"]:
             jobs.append((s, 2, "small", None))
         for s in ["lab22", "lab222"]:
